@@ -240,3 +240,28 @@ func runExplore(t *testing.T, rep *report.R, bound int, scenario func(c *choice.
 	rep.Count("max_depth", int64(st.MaxDepth))
 	return st
 }
+
+
+// abandon tears an execution down when it is given up half-way (its subtree belongs to another worker):
+// nothing may stay blocked in the worker's bubble.
+func abandon(tr interface{ Close() error }, d *env.Dialer, calls *[]*call) {
+	for _, cl := range *calls {
+		if cl != nil && cl.started && cl.cancel != nil {
+			cl.cancel()
+		}
+	}
+	for d.Pending() > 0 {
+		d.Release(false)
+	}
+	for i := 0; i < d.NumConns(); i++ {
+		d.ImplEnd(i).Commit()
+	}
+	go tr.Close()
+	synctest.Wait()
+	for i := 0; i < d.NumConns(); i++ {
+		d.ImplEnd(i).Abort()
+		d.Conn(i).Abort()
+	}
+	time.Sleep(70 * time.Second)
+	synctest.Wait()
+}
